@@ -18,9 +18,12 @@ MCDev   == IF IOEnv.VT_DEV = "" THEN {} ELSE {IOEnv.VT_DEV}
 A == <<97>>   B == <<98>>   T == <<84>>   Nm == <<110>>
 \* leaves of weight 1:  a  ~a  'n'~a  parent(T)
 Leaves1 == {Nav("name", A, <<>>, 0), Nav("multi", A, <<>>, 0), Nav("fixed", A, Nm, SQ), Par(T)}
-\* leaves of weight 2:  b  "n"~b  "n'"~a  'n"m'~b  'n\''~a
+\* leaves of weight 2:  b  "n"~b  "n'"~a  'n"m'~b  'n\''~a  'n m'~a  'nm'~a  e'  parent(E'cole)
+\* (fixed names that differ only in white space; names whose first character is not ASCII)
 Leaves2 == {Nav("name", B, <<>>, 0), Nav("fixed", B, Nm, DQ), Nav("fixed", A, <<110, SQ>>, DQ),
-            Nav("fixed", B, <<110, DQ, 109>>, SQ), Nav("fixed", A, <<110, BSL, SQ>>, SQ)}
+            Nav("fixed", B, <<110, DQ, 109>>, SQ), Nav("fixed", A, <<110, BSL, SQ>>, SQ),
+            Nav("fixed", A, <<110, 32, 109>>, SQ), Nav("fixed", A, <<110, 109>>, SQ),
+            Nav("name", <<233, 108>>, <<>>, 0), Par(<<201, 99>>)}
 Leads   == {Hat, Dots(1), Dots(2), Dots(3)}                   \* weight 1
 FlagSet == {<<>>, <<LM>>, <<LPp>>, <<LM, LPp>>, <<LPp, LM>>}   \* none +m: +p: +mp: +pm:
 
